@@ -19,11 +19,11 @@ SPEC = {
         "Rust harness harness/hx_txn (lib.rs, bin/c13.rs) and lib/vcheck.py",
     ],
     "assumptions": [
-        "statement family: UNWIND-CREATE and UNWIND-MATCH-SET with a per-row expression that raises at a chosen row (type error or collection-size limit), "
+        "statement family: UNWIND-CREATE and UNWIND-MATCH-SET with a per-row toInteger() that raises at a chosen row, "
         "plain DELETE (refused on connected nodes), DETACH DELETE, MATCH-CREATE relationship, MERGE, syntax errors; "
         "integer properties; one label, one relationship type",
-        "resource-limit violations: the collection-size limit (default max_collection_items) hit by range() at a chosen row; "
-        "row-count and time limits are not in the family (the C API exposes no way to set limits per call)",
+        "resource-limit violations are not in the family: the C API exposes no way to set limits per call, and the default collection-size "
+        "limit is not enforced for range() inside a CREATE / SET property expression (tried: the statement succeeds)",
         "explicit transactions are the C API's (ndb_begin_write / ndb_txn_query / ndb_txn_commit); the Rust-level "
         "Db::begin_write + execute_mixed path is the same code and shows the same behaviour",
     ],
@@ -31,7 +31,7 @@ SPEC = {
         "category": "proof",
         "text": "Model of what the code does: in auto-commit mode a failing statement's buffer is dropped (theorem: database unchanged, for every database and statement of the family); inside an explicit C API transaction statements write row by row into the shared buffer, so a statement failing at row i leaves rows < i in the buffer and a later commit persists them — refuted with a vm_compute witness (K-C13-buffer), and proved atomic for every transaction in which no statement fails after having written (clean failures: refused DELETE, syntax errors). Correspondence: the model predicts statuses and full dump of every generated case, both modes; direct oracle: re-run without the failed statements on an identical database.",
         "design_ref": "DESIGN.md §5 C13 / C24 / C07 transactions",
-        "level_note": "Trusted: Coq kernel; hand-written model tied to the code by sampled correspondence; statement family is a fragment (six shapes, two kinds of run-time error).",
+        "level_note": "Trusted: Coq kernel; hand-written model tied to the code by sampled correspondence; statement family is a fragment (six shapes); limit violations not covered.",
         "technique": "Rocq proof (induction over statement sequences) + vm_compute witnesses + model/implementation correspondence through the C API linked as a Rust library",
     },
 }
